@@ -1,5 +1,6 @@
 //! C09, IntVec<T> for the eight element types and the three constructors: oracle against the input slice,
-//! plus the observation record for the Coq model of the analysis + raw / min-max / delta encodings.
+//! plus the observation record (len, data+index bytes, gets) replayed in the Coq model coq/C09/ModelIntVec.v
+//! (analyses, raw / min-max / block / delta encodings, both compression paths, signed mapping).
 use super::Ctx;
 use crate::util::*;
 use serde_json::json;
@@ -28,15 +29,24 @@ pub fn read_indices(n: usize, r: &mut Rng) -> Vec<usize> {
     v.sort(); v.dedup(); v
 }
 
-pub fn intvec_case<T: Elem>(cx: &mut Ctx, vals: &[T], shape: &str, ctors: &[usize], force_coq: bool, r: &mut Rng) {
+/// which generated cases are also evaluated by the Coq model: `coq` = 0 never, 1 always (replay / corpus),
+/// otherwise one case in `coq` (drawn from the run's Rng), within the cap and the cost limit
+pub fn intvec_case<T: Elem>(cx: &mut Ctx, vals: &[T], shape: &str, ctors: &[usize], coq: u64, r: &mut Rng) {
     let n = vals.len();
     let shown: Vec<String> = vals.iter().map(|v| v.to_i128().to_string()).collect();
     let wires: Vec<u64> = vals.iter().map(|v| wire(v.to_i128())).collect();
     let wmin = wires.iter().min().copied().unwrap_or(0); let wmax = wires.iter().max().copied().unwrap_or(0);
-    let range_bits = 64 - (wmax - wmin).leading_zeros();
-    let _ = range_bits;
+    let range_bits = (64 - (wmax - wmin).leading_zeros()).max(1) as u64;
+    let sorted = wires.windows(2).all(|w| w[0] <= w[1]);
+    let uniform = n >= 2 && sorted && wires.windows(2).all(|w| w[1] - w[0] == wires[1] - wires[0]);
     let class: Option<&'static str> = None;
     let idx = read_indices(n, r);
+    // indices replayed in Coq: everything for short vectors, a spread for long ones; a (non-uniform) delta
+    // vector costs O(index) reads per get in the model as in the code, so only a few there
+    let coq_idx: Vec<usize> = if n <= 260 { (0..n).collect() }
+        else if sorted && !uniform { vec![0, 1, idx[idx.len() / 2], n - 1] }
+        else { let mut v: Vec<usize> = idx.iter().step_by((idx.len() / 24).max(1)).copied().collect(); v.push(n - 1); v.sort(); v.dedup(); v };
+    let cost = (n as u64) * (n as u64) / 2 * range_bits + if sorted && !uniform { (n as u64) * (n as u64) * range_bits.min(33) } else { 0 };
     for &ctor in ctors {
         let cname = ["from_slice", "from_slice_bulk", "from_slice_bulk_simd"][ctor];
         let cell = format!("IntVec<{}>/{}", T::NAME, cname);
@@ -46,13 +56,14 @@ pub fn intvec_case<T: Elem>(cx: &mut Ctx, vals: &[T], shape: &str, ctors: &[usiz
         let cj = json!({"cell": "intvec", "type": T::NAME, "ctor": ctor, "values": shown});
         let built = guarded(|| match ctor { 0 => IntVec::<T>::from_slice(vals), 1 => IntVec::<T>::from_slice_bulk(vals), _ => IntVec::<T>::from_slice_bulk_simd(vals) });
         let mut obs: Vec<String> = vec![];
+        let past_idx = [n, n + 1, n + 7, n + 64, usize::MAX];
         match built {
             Err(p) => { obs.push("[(-1)]%Z".into()); cx.sum.fail(&cell, class, cj.clone(), &format!("constructor panicked: {}", p)); }
             Ok(Err(_)) => { obs.push("[1]%Z".into()); cx.sum.dist("intvec_build_refused"); }
             Ok(Ok(iv)) => {
                 let rr = guarded(|| {
                     let got: Vec<Option<T>> = idx.iter().map(|&i| iv.get(i)).collect();
-                    let past: Vec<Option<T>> = [n, n + 1, n + 7, n + 64, usize::MAX].iter().map(|&i| iv.get(i)).collect();
+                    let past: Vec<Option<T>> = past_idx.iter().map(|&i| iv.get(i)).collect();
                     (iv.len(), iv.is_empty(), got, past, iv.memory_usage())
                 });
                 match rr {
@@ -66,15 +77,22 @@ pub fn intvec_case<T: Elem>(cx: &mut Ctx, vals: &[T], shape: &str, ctors: &[usiz
                         if let Some(d) = bad { cx.sum.fail(&cell, class, cj.clone(), &d); }
                         let payload = mem as i128 - std::mem::size_of::<IntVec<T>>() as i128;
                         obs.push(format!("[0; {}; {}]%Z", len, payload));
-                        obs.push(format!("[{}]%Z", got.iter().map(|g| match g { Some(v) => wire(v.to_i128()).to_string(), None => "(-1)".to_string() }).collect::<Vec<_>>().join("; ")));
+                        let show = |g: &Option<T>| match g { Some(v) => format!("[0; {}]%Z", coq_z(v.to_i128())), None => "[1]%Z".to_string() };
+                        for &i in &coq_idx { let k = idx.binary_search(&i).expect("coq index is a read index"); obs.push(show(&got[k])); }
+                        for k in [0usize, 1, 4] { obs.push(show(&past[k])); }
                     }
                 }
             }
         }
-        if cx.model_intvec && n <= 260 && (force_coq || (cx.shards.len() < cx.budget && cx.n_intvec_coq < cx.cap_intvec_coq)) {
+        let pick = (coq == 1 && !(cx.corpus_mode && cost > 300_000_000)) || (coq > 1 && cx.shards.len() < cx.budget && cx.n_intvec_coq < cx.cap_intvec_coq && cost <= 12_000_000 && r.chance(1, coq));
+        if cx.model_intvec && pick {
             cx.n_intvec_coq += 1;
-            // the model works on the u64 images; the element type enters only through them (and through nothing else in the code)
-            let term = format!("CIntVec {} {} [{}]", ctor, coq_n_list(wires.iter().map(|&v| v as u128)), obs.join("; "));
+            if n > 260 { cx.sum.dist("coq_cases_intvec_long"); }
+            if n > 10000 { cx.sum.dist("coq_cases_intvec_full_analysis"); }
+            let mut all_idx: Vec<u128> = coq_idx.iter().map(|&i| i as u128).collect();
+            if obs.len() > 1 { for k in [0usize, 1, 4] { all_idx.push(past_idx[k] as u128); } }
+            let term = format!("CIntVec {} {} {} {} {} [{}]", ctor, T::BITS, coq_bool(T::SIGNED),
+                coq_z_list(vals.iter().map(|v| v.to_i128())), coq_n_list(all_idx.into_iter()), obs.join("; "));
             cx.shards.push(term, cj);
         }
     }
@@ -130,7 +148,38 @@ pub fn gen_intvec<T: Elem>(cx: &mut Ctx, r: &mut Rng, size_class: u32) {
     let n = match size_class { 0 => { let n = *r.pick(LENGTHS); if r.chance(1, 3) { n.min(12) } else { n } }, 1 => *r.pick(LONG), _ => *r.pick(HUGE) };
     let shape = r.below(13);
     let (vals, name) = gen_vals::<T>(r, n, shape);
-    intvec_case::<T>(cx, &vals, name, &[0, 1, 2], false, r);
+    let coq = match size_class { 0 => 230, 1 => 25, _ => 0 };
+    intvec_case::<T>(cx, &vals, name, &[0, 1, 2], coq, r);
+}
+
+/// One vector above the 10000-element / 16 KiB limits of the small-dataset heuristic, so that the full analysis
+/// (min-max vs delta vs block based, chosen by estimated size) runs, shaped so that the block layout wins:
+/// far-apart block bases, one-bit offsets.  Always replayed in the Coq model (about ten seconds there).
+pub fn full_analysis_case<T: Elem>(cx: &mut Ctx, r: &mut Rng) {
+    let n = 10001 + r.below(300) as usize;
+    let hi = T::hi(); let lo = T::lo().max(0);
+    let last_block = (n - 1) / 128;
+    let mut base = lo;
+    // the short last block carries the largest offsets: the offset width has to come from it
+    let vals: Vec<T> = (0..n).map(|i| { if i % 128 == 0 { base = lo + (r.next() as u128 % ((hi - lo - 3) as u128)) as i128; }
+        T::from_i128(base + if i / 128 == last_block { r.below(4) as i128 } else { r.below(2) as i128 }) }).collect();
+    intvec_case::<T>(cx, &vals, "full_analysis_blocks", &[if r.chance(1, 2) { 0 } else { 2 }], 1, r);
+}
+
+/// Fields of 59..63 bits whose last field reaches into the very last byte of the 16-byte aligned buffer through
+/// the ninth byte of its window (n * w = 121..127 mod 128): n = 71 for w = 63, and the like.
+pub fn tight_tail_case<T: Elem>(cx: &mut Ctx, r: &mut Rng, coq: u64) {
+    if T::BITS < 64 { return; }
+    let w = 59 + r.below(5) as u32;
+    let cands: Vec<usize> = (4..300usize).filter(|n| { let m = (n * w as usize) % 128; m >= 121 }).collect();
+    let n = *r.pick(&cands);
+    let lo = T::lo(); let top: i128 = 1i128 << (w - 1);
+    // range exactly w bits: the minimum and a value with bit w-1 set are present, the last element has its top bit set
+    let base = if T::SIGNED { lo } else { r.below(1000) as i128 };
+    let mut vals: Vec<T> = (0..n).map(|_| T::from_i128(base + (r.next() as u128 % (top as u128 * 2)) as i128)).collect();
+    vals[0] = T::from_i128(base); vals[1] = T::from_i128(base + 1); vals[2] = T::from_i128(base);
+    vals[n - 1] = T::from_i128(base + top + (r.next() as u128 % (top as u128)) as i128);
+    intvec_case::<T>(cx, &vals, "tight_tail", &[0, 2], coq, r);
 }
 
 /// Enumerated: every sequence of length <= 4 over {0, 1, MAX-1, MAX, MIN} of the type.
@@ -143,7 +192,7 @@ pub fn enum_small<T: Elem>(cx: &mut Ctx, r: &mut Rng) {
         for code in 0..total {
             let mut c = code; let mut v: Vec<T> = vec![];
             for _ in 0..len { v.push(T::from_i128(alpha[c % a])); c /= a; }
-            intvec_case::<T>(cx, &v, "enumerated", &[0, 2], false, r);
+            intvec_case::<T>(cx, &v, "enumerated", &[0, 2], 230, r);
         }
     }
 }
